@@ -55,9 +55,9 @@ Lemma even_pow10 : forall k, 0 < k -> Z.even (10 ^ k) = true.
 Proof. intros k Hk. rewrite Z.even_pow by assumption. reflexivity. Qed.
 
 Lemma in_prec_true : forall p v, in_prec p v = true <-> Z.abs v < 10 ^ p.
-Proof. intros p v. unfold in_prec. apply Z.ltb_lt. Qed.
+Proof. intros p v. unfold in_prec. cbv beta zeta. apply Z.ltb_lt. Qed.
 Lemma in_prec_false : forall p v, in_prec p v = false <-> 10 ^ p <= Z.abs v.
-Proof. intros p v. unfold in_prec. apply Z.ltb_ge. Qed.
+Proof. intros p v. unfold in_prec. cbv beta zeta. apply Z.ltb_ge. Qed.
 
 Lemma from_decimal_some : forall w v, fits w true v = true -> from_decimal w v = Some v.
 Proof. intros w v H. unfold from_decimal, num_cast. rewrite H. reflexivity. Qed.
@@ -70,10 +70,10 @@ Proof. intros w a b H. unfold checked_mul. cbv zeta. rewrite H. reflexivity. Qed
 
 Lemma wrap_signed_id : forall w v, 0 < w -> Z.abs v < 2 ^ (w - 1) -> wrap_signed w v = v.
 Proof.
-  intros w v Hw Hv. unfold wrap_signed. apply Z.abs_lt in Hv.
-  assert (E : 2 ^ w = 2 * 2 ^ (w - 1)).
-  { replace w with (1 + (w - 1)) at 1 by lia. rewrite Z.pow_add_r by lia. reflexivity. }
-  rewrite Z.mod_small by lia. lia.
+  intros w v Hw Hv. unfold wrap_signed. cbv zeta. apply Z.abs_lt in Hv.
+  assert (C : (- 2 ^ (w - 1) <=? v) && (v <? 2 ^ (w - 1)) = true).
+  { apply andb_true_iff. split; [apply Z.leb_le|apply Z.ltb_lt]; lia. }
+  rewrite C. reflexivity.
 Qed.
 
 Lemma width_pos : forall w, In w widths -> 0 < w.
@@ -170,7 +170,7 @@ Proof.
   intros w1 p1 s1 w2 p2 s2 x Hw1 Hw2 T1 T2 Hi8 Hi8p Hup Hx.
   apply dec_type_ok_bounds in T1. destruct T1 as (P1 & _ & _ & _).
   apply dec_type_ok_bounds in T2. destruct T2 as (P2 & _ & _ & _).
-  unfold dec_dec_kernel, dec_dec_spec, rescale_spec. cbv zeta.
+  unfold dec_dec_kernel, dec_dec_spec, rescale_spec. cbv beta zeta.
   destruct ((w1 =? w2) && (s1 =? s2) && (p1 <=? p2)) eqn:Same.
   - (* clone *)
     apply andb_true_iff in Same. destruct Same as [Same Hp]. apply andb_true_iff in Same. destruct Same as [_ Hs].
@@ -230,7 +230,7 @@ Proof.
   intros w1 p1 s1 w2 p2 s2 f x Hw1 Hw2 T1 T2 Hi8 Hi8p Hup Hk Hx.
   pose proof (dec_dec_kernel_exact w1 p1 s1 w2 p2 s2 x Hw1 Hw2 T1 T2 Hi8 Hi8p Hup Hx) as E.
   rewrite Hk in E. cbn [kernel_value] in E. destruct (f x) as [r|]; [|discriminate].
-  unfold dec_dec_spec in E. cbv zeta in E. destruct (in_prec p2 (rescale_spec s1 s2 x)) eqn:P; [|discriminate].
+  unfold dec_dec_spec in E. cbv beta zeta in E. destruct (in_prec p2 (rescale_spec s1 s2 x)) eqn:P; [|discriminate].
   inversion E; subst r. exists (rescale_spec s1 s2 x). split; [reflexivity|].
   apply in_prec_true in P. split; [assumption|]. split; [|reflexivity].
   apply dec_type_ok_bounds in T2. destruct T2 as (P2 & _).
